@@ -206,7 +206,7 @@ def validate_traces(
         shutil.rmtree(wd, ignore_errors=True)
 
 
-def probe_reachable(module: str, base_cfg: str, probes: Sequence[str], *, timeout: int = 900,
+def probe_reachable(module: str, base_cfg: str, probes: Sequence[str], *, timeout: int = 2400,
                     spec_dir: str = SPEC_DIR) -> Dict[str, bool]:
     """Anti-vacuity: each probe is an action property / invariant stating that an interesting
     situation never occurs; it must be VIOLATED.  One TLC run per probe, in parallel; base_cfg is a
@@ -234,6 +234,6 @@ def probe_reachable(module: str, base_cfg: str, probes: Sequence[str], *, timeou
 
 def sany(module: str, spec_dir: str = SPEC_DIR) -> None:
     cmd = _java("1g") + ["tla2sany.SANY", os.path.join(spec_dir, module + ".tla")]
-    p = subprocess.run(cmd, cwd=spec_dir, stdout=subprocess.PIPE, stderr=subprocess.STDOUT, text=True, timeout=300)
+    p = subprocess.run(cmd, cwd=spec_dir, stdout=subprocess.PIPE, stderr=subprocess.STDOUT, text=True, timeout=1200)
     if p.returncode != 0 or "Semantic errors" in p.stdout or "*** Errors" in p.stdout or "Parse Error" in p.stdout:
         raise MachineryError(f"SANY failed on {module}:\n{p.stdout[-3000:]}")
